@@ -16,6 +16,8 @@ From Irismod Require Genesis.Random Genesis.RandomProofs.
 From Irismod Require Genesis.Farm Genesis.FarmProofs.
 From Irismod Require Genesis.Oracle Genesis.OracleProofs.
 From Irismod Require Genesis.Service Genesis.ServiceProofs.
+From Irismod Require Genesis.Htlc Genesis.HtlcProofs.
+From Irismod Require Genesis.Mt Genesis.MtProofs.
 
 (** ** record *)
 Module RecordC12.
@@ -372,3 +374,71 @@ Print Assumptions service_queries_preserved_partial.
 Example service_nonvacuous : invb wit_s = true /\ quietb wit_s = false /\ quietb (prep wit_s) = true.
 Proof. repeat split; vm_compute; reflexivity. Qed.
 End ServiceC12.
+
+(** ** htlc.  Closed (completed / refunded) contracts are documented as dropped: ExportGenesis filters
+    them and InitGenesis refuses them.  The model carries a switch for the repair "htlc genesis
+    validation accepts timestamp 0 for plain (non-transfer) contracts"; the tree under check has it. *)
+Module HtlcC12.
+Import Genesis.Htlc Genesis.HtlcProofs.
+
+(** the code as it was: a plain contract created with timestamp 0 makes the export invalid *)
+Theorem htlc_export_validates_refuted : exists s : state, invb false s = true /\ validate false (export s) = false.
+Proof. exact htlc_export_validates_refuted_lemma. Qed.
+Print Assumptions htlc_export_validates_refuted.
+
+Theorem htlc_export_validates : forall s : state, invb true s = true -> validate true (export s) = true.
+Proof. exact htlc_export_validates_lemma. Qed.
+Print Assumptions htlc_export_validates.
+
+(** as stated it FAILS: ValidateGenesis does not compare the supplies with the open transfers (nor
+    check that a transfer's asset is live); InitGenesis panics on both *)
+Theorem htlc_import_total_refuted : exists g : genesis, validate true g = true /\ import true g = None.
+Proof. exact htlc_import_total_refuted_lemma. Qed.
+Print Assumptions htlc_import_total_refuted.
+
+Theorem htlc_export_fixpoint :
+  forall s : state, invb true s = true -> exists s', import true (export s) = Some s' /\ export s' = export s.
+Proof. exact htlc_export_fixpoint_lemma. Qed.
+Print Assumptions htlc_export_fixpoint.
+
+(** open contracts, asset supplies, parameters; and the expiration queue of the new chain holds exactly
+    its open contracts under their expiration heights *)
+Theorem htlc_queries_preserved :
+  forall s : state, invb true s = true ->
+    exists s', import true (export s) = Some s' /\ queries s' = queries s /\ queue s' = queue_of (htlcs s').
+Proof. exact htlc_queries_preserved_lemma. Qed.
+Print Assumptions htlc_queries_preserved.
+
+Example htlc_nonvacuous : invb true wit_s = true /\ validate true (export wit_s) = true.
+Proof. split; vm_compute; reflexivity. Qed.
+End HtlcC12.
+
+(** ** mt (the owners part of the export compared exactly, in store key order) *)
+Module MtC12.
+Import Genesis.Mt Genesis.MtProofs.
+
+Theorem mt_export_validates : forall s : state, invb s = true -> validate (export s) = true.
+Proof. exact mt_export_validates_lemma. Qed.
+Print Assumptions mt_export_validates.
+
+(** as stated it FAILS: ValidateGenesis adds the balances of an MT in uint64 arithmetic (the sum wraps),
+    InitGenesis refuses the overflow *)
+Theorem mt_import_total_refuted : exists g : genesis, validate g = true /\ import g = None.
+Proof. exact mt_import_total_refuted_lemma. Qed.
+Print Assumptions mt_import_total_refuted.
+
+Theorem mt_export_fixpoint :
+  forall s : state, invb s = true -> exists s', import (export s) = Some s' /\ export s' = export s.
+Proof. exact mt_export_fixpoint_lemma. Qed.
+Print Assumptions mt_export_fixpoint.
+
+(** classes, MTs with their current supply, supplies, balances; and the two id sequences *)
+Theorem mt_queries_preserved :
+  forall s : state, invb s = true ->
+    exists s', import (export s) = Some s' /\ queries s' = queries s /\ dseq s' = dseq s /\ mseq s' = mseq s.
+Proof. exact mt_queries_preserved_lemma. Qed.
+Print Assumptions mt_queries_preserved.
+
+Example mt_nonvacuous : invb wit_s = true /\ sup_of (bals wit_s) = [((1, 1), 12); ((1, 2), 0)].
+Proof. split; vm_compute; reflexivity. Qed.
+End MtC12.
